@@ -7,6 +7,7 @@ import (
 	"os"
 	"path/filepath"
 	"strconv"
+	"sync/atomic"
 	"testing"
 )
 
@@ -122,10 +123,15 @@ type oracle struct {
 	perKey map[string]int
 	nsamp  int
 	checks int
+	name   string
 }
 
+var curOracle atomic.Pointer[oracle]
+
 func newOracle(t testing.TB, prop string) *oracle {
-	return &oracle{o: newOut(t, prop+"_oracle.txt"), stats: map[string]int{}}
+	q := &oracle{o: newOut(t, prop+"_oracle.txt"), stats: map[string]int{}, name: prop}
+	curOracle.Store(q)
+	return q
 }
 func (q *oracle) fail(key, detail string) {
 	q.nfail++
